@@ -93,8 +93,6 @@ class Ob:
         self.clauses = clauses      # number of clauses aggregated in the body (for counting)
         self.split = split          # name of the stage-2 harness with one assertion per clause
         self.plain = plain          # True: verified against the UNWOVEN copy (no contract attributes)
-        if self.cls == "lattice" and self.solver == "cadical":
-            self.solver = "minisat"   # measured: 3.8 s vs 10.6 s (cadical) / 6.8 s (kissat) on the from_quat lattice obligation
         assert re.match(r"^[a-z0-9_]+$", name), name
 
 
